@@ -1,2 +1,122 @@
-(* C09 driver section: not implemented yet *)
-let init () = ()
+(* C09 / C10: verifiable RSA encryption model (coq/Model/VEnc.v).
+   Oracles answered by harness/src/c09.rs: rsa_n / rsa_enc / rsa_dec (real `rsa` crate, keys named by
+   an id), the edwards25519 group (eadd/eneg/esmul/egen/eid/edec, curve25519-dalek), kdec33
+   (GroupEncoding::from_bytes of k256); kadd/kneg/ksmul/kgen/kid and sha256 are standard oracles.
+   Proof objects stay on this side in a handle table. *)
+module M = M_c09
+module C = Proto.Conv (M)
+open M
+
+let one name args = match Proto.ask (name :: args) with [x] -> x | _ -> failwith (name ^ ": bad answer")
+
+let rec nat_of_int (i : int) : nat = if i <= 0 then O else S (nat_of_int (i - 1))
+let int_of_nat (n : nat) : int = let rec go n acc = match n with O -> acc | S k -> go k (acc + 1) in go n 0
+
+let q_k = lazy (C.z_of_hex "FFFFFFFFFFFFFFFFFFFFFFFFFFFFFFFEBAAEDCE6AF48A03BBFD25E8CD0364141")
+let q_e = lazy (C.z_of_hex "1000000000000000000000000000000014DEF9DEA2F79CD65812631A5CF5D3ED")
+
+let zeros33 = String.make 66 '0'
+
+(* secp256k1: elements are the hex of the SEC1 compressed encoding ("00" = identity) as used by the standard
+   oracles; GroupEncoding of k256 writes the identity as 33 zero bytes. *)
+let group_k : string group_ops Lazy.t = lazy {
+  g_add = (fun a b -> one "kadd" [a; b]);
+  g_neg = (fun a -> one "kneg" [a]);
+  g_smul = (fun k a -> one "ksmul" [C.hex_of_z k; a]);
+  g_gen = one "kgen" [];
+  g_id = one "kid" [];
+  g_eqb = (fun a b -> a = b);
+  g_enc = (fun a -> C.bytes_of_hex (if a = "00" then zeros33 else a));
+  g_dec = (fun l -> match Proto.ask ["kdec33"; C.hex_of_bytes l] with ["1"; p] -> Some p | _ -> None);
+}
+(* edwards25519: elements are the hex of the 32-byte compressed encoding *)
+let group_e : string group_ops Lazy.t = lazy {
+  g_add = (fun a b -> one "eadd" [a; b]);
+  g_neg = (fun a -> one "eneg" [a]);
+  g_smul = (fun k a -> one "esmul" [C.hex_of_z k; a]);
+  g_gen = one "egen" [];
+  g_id = one "eid" [];
+  g_eqb = (fun a b -> a = b);
+  g_enc = (fun a -> C.bytes_of_hex a);
+  g_dec = (fun l -> match Proto.ask ["edec"; C.hex_of_bytes l] with ["1"; p] -> Some p | _ -> None);
+}
+
+type curve = { ops : string group_ops; q : z; psize : nat; repr : z -> n list; from_repr : n list -> z option;
+               point : string -> string }
+
+let curve (c : string) : curve = match c with
+  | "k" -> let q = Lazy.force q_k in
+    { ops = Lazy.force group_k; q; psize = nat_of_int 33; repr = repr_be; from_repr = from_repr_be q;
+      point = (fun h -> if h = zeros33 then "00" else h) }
+  | "e" -> let q = Lazy.force q_e in
+    { ops = Lazy.force group_e; q; psize = nat_of_int 32; repr = repr_le; from_repr = from_repr_le q;
+      point = (fun h -> h) }
+  | _ -> failwith "unknown curve"
+
+let sha256 (b : n list) : n list = C.bytes_of_hex (one "sha256" [C.hex_of_bytes b])
+
+(* RSA keys are named by an id known to the harness *)
+let ncache : (string, z) Hashtbl.t = Hashtbl.create 8
+let rsa_n (id : string) : z =
+  match Hashtbl.find_opt ncache id with
+  | Some v -> v
+  | None -> let v = C.z_of_hex (one "rsa_n" [id]) in Hashtbl.replace ncache id v; v
+let rsa_enc (seed : n list) (pk : string) (m : n list) : n list option =
+  match Proto.ask ["rsa_enc"; C.hex_of_bytes seed; pk; C.hex_of_bytes m] with
+  | ["1"; c] -> Some (C.bytes_of_hex c) | _ -> None
+let rsa_dec (sk : string) (c : n list) : n list option =
+  match Proto.ask ["rsa_dec"; sk; C.hex_of_bytes c] with
+  | ["1"; m] -> Some (C.bytes_of_hex m) | _ -> None
+
+let handles : (int, vproof) Hashtbl.t = Hashtbl.create 64
+let next = ref 0
+let stash p = incr next; Hashtbl.replace handles !next p; string_of_int !next
+let fetch h = match Hashtbl.find_opt handles (int_of_string h) with Some p -> p | None -> failwith "bad proof handle"
+
+let out_unit (o : unit outcome) = match o with
+  | Val () -> ["V"] | Err e -> ["E"; string_of_int (C.int_of_n e)] | Panic s -> ["P"; string_of_int (C.int_of_n s)]
+let out_proof (o : vproof outcome) = match o with
+  | Val p -> ["V"; stash p] | Err e -> ["E"; string_of_int (C.int_of_n e)] | Panic s -> ["P"; string_of_int (C.int_of_n s)]
+
+let init () =
+  Proto.register "c09.reset" (fun _ -> Hashtbl.reset handles; Hashtbl.reset ncache; ["ok"]);
+  (* encrypt curve pk x label sp|none seed r0,r1,... *)
+  Proto.register "c09.encrypt" (fun args -> match args with
+    | [c; pk; x; label; sp; seed; tape] ->
+      let cv = curve c in
+      let rs = Array.of_list (List.map C.z_of_hex (if tape = "-" then [] else String.split_on_char ',' tape)) in
+      let tape_fn (i : nat) : z = let k = int_of_nat i in if k < Array.length rs then rs.(k) else Z0 in
+      let sp_opt = if sp = "none" then None else Some (nat_of_int (int_of_string sp)) in
+      out_proof (encrypt_with_proof cv.ops cv.q cv.repr sha256 rsa_n rsa_enc (C.z_of_hex x) pk
+                   (C.bytes_of_hex label) sp_opt (C.bytes_of_hex seed) tape_fn)
+    | _ -> failwith "c09.encrypt: arity");
+  Proto.register "c09.tobytes" (fun args -> match args with
+    | [c; h] ->
+      (match to_bytes (curve c).repr (fetch h) with
+       | Val b -> ["V"; C.hex_of_bytes b] | Err e -> ["E"; string_of_int (C.int_of_n e)]
+       | Panic s -> ["P"; string_of_int (C.int_of_n s)])
+    | _ -> failwith "c09.tobytes: arity");
+  Proto.register "c09.frombytes" (fun args -> match args with
+    | [c; d] -> let cv = curve c in out_proof (from_bytes cv.psize cv.from_repr (C.bytes_of_hex d))
+    | _ -> failwith "c09.frombytes: arity");
+  (* verify curve handle Q pk label *)
+  Proto.register "c09.verify" (fun args -> match args with
+    | [c; h; qp; pk; label] ->
+      let cv = curve c in
+      out_unit (verify cv.ops cv.repr sha256 rsa_n rsa_enc (fetch h) (cv.point qp) pk (C.bytes_of_hex label))
+    | _ -> failwith "c09.verify: arity");
+  (* decrypt curve handle Q sk label *)
+  Proto.register "c09.decrypt" (fun args -> match args with
+    | [c; h; qp; sk; label] ->
+      let cv = curve c in
+      (match decrypt cv.ops cv.q cv.from_repr sha256 rsa_n rsa_dec (fetch h) (cv.point qp) sk (C.bytes_of_hex label) with
+       | Val x -> ["V"; C.hex_of_z x] | Err e -> ["E"; string_of_int (C.int_of_n e)]
+       | Panic s -> ["P"; string_of_int (C.int_of_n s)])
+    | _ -> failwith "c09.decrypt: arity");
+  (* small pure functions, compared on their own *)
+  Proto.register "c09.modinv" (fun args -> match args with
+    | [g; n] -> (match mod_inverse (C.z_of_hex g) (C.z_of_hex n) with Some v -> ["1"; C.hex_of_z v] | None -> ["0"])
+    | _ -> failwith "c09.modinv: arity");
+  Proto.register "c09.bu" (fun args -> match args with
+    | [b] -> let v = bu_from_be (C.bytes_of_hex b) in [C.hex_of_z v; C.hex_of_bytes (bu_to_be v)]
+    | _ -> failwith "c09.bu: arity")
